@@ -407,7 +407,8 @@ func sortInts(a []int) {
 	}
 }
 
-var nameAlphabet = []string{"t", "task", "task-1", "task-10", "a.b", "build:all", "x_y", "T"}
+// task names are data: formatting verbs, template braces, blanks and non-ASCII letters are all legal in them
+var nameAlphabet = []string{"t", "task", "task-1", "task-10", "a.b", "build:all", "x_y", "T", "cov-100%", "deploy-%d", "a%20b", "%s", "{{.x}}", "build app", "süß", "100%%"}
 
 func genStreamCase(rt *rapid.T, cutInEsc bool) StreamCase {
 	c := StreamCase{Format: rapid.SampledFrom([]string{"raw", "prefixed", "prefixed"}).Draw(rt, "format"), CutInEsc: cutInEsc}
